@@ -270,6 +270,43 @@ def run(index, rep, tier):
                       "the label handed to %s.new_character_subset is probed in %s.character_subsets" % (recv, recv),
                       "concatenate chooses the subset label with `%s` but inserts it through %s.new_character_subset, which rejects labels already in %s.character_subsets - a case-insensitive mapping: a probe through a snapshot/derived collection compares case-sensitively (or goes stale), so labels differing only in case pass the probe and the insertion raises, or a subset is overwritten" % (what[:120], recv, recv))
 
+    # ---- R19.4 raw cell lists stay inside the sequence class
+    with rep.section("R19.4 raw lists"):
+        CDS = "dendropy.datamodel.charmatrixmodel.CharacterDataSequence"
+        internals = {"_character_values", "_character_types", "_character_annotations"}
+        raw_getters = set()
+        for m in index.methods_of(CDS):
+            rets = [r for r in walk_no_nested(m.node) if isinstance(r, ast.Return) and r.value is not None]
+            if rets and all(isinstance(r.value, ast.Attribute) and norm(r.value.value) == "self" and r.value.attr in internals for r in rets):
+                raw_getters.add(m.name)
+        nraw = 0
+        for f in index.functions_in_module("dendropy.datamodel.charmatrixmodel"):
+            if f.cls is not None and f.cls.qualname == CDS:
+                continue
+            aliases = {}
+            for a in walk_no_nested(f.node):
+                if isinstance(a, ast.Assign) and isinstance(a.targets[0], ast.Name) and isinstance(a.value, ast.Call) and call_name(a.value) in raw_getters and isinstance(a.value.func, ast.Attribute) and not a.value.args:
+                    aliases[a.targets[0].id] = a.value
+            def is_raw(e):
+                return (isinstance(e, ast.Call) and call_name(e) in raw_getters and isinstance(e.func, ast.Attribute) and not e.args) or (isinstance(e, ast.Name) and e.id in aliases) or \
+                    (isinstance(e, ast.Attribute) and e.attr in internals and norm(e.value) != "self")
+            for x in walk_no_nested(f.node):
+                hit = None
+                if isinstance(x, ast.Call) and isinstance(x.func, ast.Attribute) and x.func.attr in MUTATORS and is_raw(x.func.value):
+                    hit = x
+                elif isinstance(x, (ast.Assign, ast.AugAssign, ast.Delete)):
+                    for t in (x.targets if isinstance(x, (ast.Assign, ast.Delete)) else [x.target]):
+                        if isinstance(t, ast.Subscript) and is_raw(t.value):
+                            hit = x
+                if isinstance(x, ast.Call) and call_name(x) in raw_getters and isinstance(x.func, ast.Attribute) and not x.args:
+                    nraw += 1
+                if hit is not None:
+                    rep.check(False, "R19.4", f.qualname, "raw cell list of a sequence mutated outside the sequence class: %s" % norm_stmt(hit)[:60], fn_where(f, hit), "",
+                              "%s changes one of a sequence's three parallel cell lists directly (`%s`): only CharacterDataSequence's own methods keep values, character types and annotations the same length, so after this existing cells lose (or shift) their types/annotations and later deletions or exports raise IndexError" % (f.qualname, norm_stmt(hit)[:80]))
+        rep.ob("R19.4", "src/dendropy/datamodel/charmatrixmodel.py:1", "raw-list getters of CharacterDataSequence: %s; %d uses outside the class, none mutating" % (sorted(raw_getters), nraw), True)
+        if not raw_getters:
+            raise AnalysisError("R19.4: no raw-list getter of CharacterDataSequence found (values())")
+
     # ---- R19.7
     with rep.section("R19.7"):
         nfor = 0
